@@ -77,3 +77,14 @@ Example C09_meek_guarded_overelects_refuted :
   | _ => False
   end.
 Proof. vm_compute. reflexivity. Qed.
+
+(* ---- ... for every ballot file the reader accepts (see Props/C02.v for the reading of parse_file / to_count_profile) ---- *)
+From Droop Require Import Model.KernelBase Model.Profile Model.EndToEnd Proofs.EndToEndLink.
+
+Theorem C09_seats_never_over_committed_for_every_accepted_file : forall A S (ZL : zlike A S) cfg,
+  cf_method cfg = MWigm -> exact A = false -> 0 <= cf_nseats cfg ->
+  forall r text p fuel s k, seat_rule r -> parse_file text = Ok p -> p_linesEq p = [] -> cf_nballots cfg = p_nBallots p ->
+  exec (@crashed A) fuel (count_cmd A cfg r) (init_state A cfg (to_count_profile p)) = Some (s, k) -> k <> Abort ->
+  nlen (electeds A s) <= cf_nseats cfg.
+Proof. exact accepted_seats. Qed.
+Print Assumptions C09_seats_never_over_committed_for_every_accepted_file.
